@@ -17,9 +17,14 @@ fn empty_state() -> Value {
 pub fn child_main(path: &str, out: &str, style: crate::concretise::IdStyle) -> i32 {
     match AnnotationStore::from_file(path, crate::store_config().0) {
         Ok(store) => {
-            let (st, pos) = crate::project::project(&store, style);
-            std::fs::write(out, serde_json::to_string(&json!({"st": st, "pos": pos})).unwrap()).expect("harness: write projection");
-            0
+            // the loader returned a store; if it cannot even be walked (exit 4) it was accepted in a corrupt state
+            match std::panic::catch_unwind(std::panic::AssertUnwindSafe(|| crate::project::project(&store, style))) {
+                Ok((st, pos)) => {
+                    std::fs::write(out, serde_json::to_string(&json!({"st": st, "pos": pos})).unwrap()).expect("harness: write projection");
+                    0
+                }
+                Err(_) => 4,
+            }
         }
         Err(_) => 3,
     }
@@ -331,6 +336,7 @@ fn run_child(path: &Path, out: &Path, style: u64, limit_s: u64) -> (String, Valu
                 None => ("panic".into(), empty_state()),
             },
             Some(3) => ("err".into(), empty_state()),
+            Some(4) => ("unobservable".into(), empty_state()),
             Some(101) => ("panic".into(), empty_state()),
             Some(_) => {
                 if err.contains("memory allocation") || err.contains("capacity overflow") {
@@ -464,5 +470,8 @@ pub fn load_event(ctx: &Ctx, a: &Value) -> (String, Value) {
     let out = dir.join("loaded.json");
     let (outcome, loaded) = if applied { run_child(&path, &out, ctx.style.0, 20) } else { ("err".into(), empty_state()) };
     let _ = std::fs::remove_dir_all(&dir);
-    (outcome, json!({"has": true, "applied": applied, "loaded": loaded}))
+    // "unobservable": a store was returned (outcome ok) whose projection panics
+    let observable = outcome != "unobservable";
+    let outcome = if observable { outcome } else { "ok".to_string() };
+    (outcome, json!({"has": true, "applied": applied, "loaded": loaded, "observable": observable}))
 }
